@@ -449,8 +449,10 @@ def fl_check(ctx, prefix):
     ctx.assumptions = ASSUME_BASE + ["the twin program is computed by Facto!Unroll / Facto!Inline (syntactic substitution, locals renamed apart)"]
 
     def item(p, rs):
-        it = twin_item(p, rs, dom=p["dom"])
-        if p.get("mode") == "hist":
+        hist = p.get("mode") == "hist"
+        # (quick: histories over a 4-value domain - three inputs x two builds in lock-step grow with the cube of the domain)
+        it = twin_item(p, rs, dom=[-3, 0, 1, 5] if hist and ctx.tier == "quick" else p["dom"])
+        if hist:
             it["mode"] = "hist"
             it["vclause"] = "C03_value"
         return it
@@ -464,8 +466,10 @@ def c12(ctx):
         p["id"] = gen.prog_id("pa", {"src": p["src"], "src2": p["src2"]})
         if p.get("cins"):
             p["grp"] = "far" + p["grp"]
+        else:
+            p["grp"] = "%s:%s-%s" % (p["grp"], p.get("pi"), p.get("qj"))     # every (P, Q) combination is a stratum of the quick slice
     ctx.cov["corpus_size"] = len(progs)
-    sel = pick_strat(progs, 110, ctx.seed, min_per=8) if ctx.tier == "quick" else progs
+    sel = pick_strat(progs, 110, ctx.seed, min_per=2) if ctx.tier == "quick" else progs
     ctx.cov["exhaustive"] = ctx.tier != "quick"
     ctx.cov["rule"] = ("pairs (P, Q) from GenPair (3 x 5 small programs over disjoint variable names that reuse the same explicit signals and "
                        "neighbouring tiles) x ALL order-preserving interleavings; the build of the interleaved program is run in lock-step with "
